@@ -186,31 +186,32 @@ example : (1 : Nat) ≤ (X ^ 2 + 1 : ℚ[X]).natDegree := by
   rw [show (X ^ 2 + 1 : ℚ[X]) = X ^ 2 + C 1 by simp, natDegree_X_pow_add_C]; norm_num
 
 /-- `reduce_by_ntt_friendly_modulus` (stage 1 of `fast_reduce`): for `low` of power-of-two length `n` with
-    `deg low < tail < n` the result is congruent to the input modulo `X^n + low`; `NttConv` is what C06/C07 provide
-    about the transform pair -/
-theorem reduce_by_ntt_friendly_modulus_spec (N : NttOps K) (hN : NttConv N) (a low : List K) (tail : Nat)
+    `deg low < tail < n` the result is congruent to the input modulo `X^n + low`; `NttDft N ω` — `ntt` is the DFT at
+    the primitive roots `ω n`, `intt` its inverse — is what property C06 establishes about the transform pair -/
+theorem reduce_by_ntt_friendly_modulus_spec (N : NttOps K) (ω : Nat → K) (hN : NttDft N ω) (a low : List K) (tail : Nat)
     (hpow : isPowerOfTwo low.length = true) (htail : tail < low.length) (hS : (denote low).degree < tail) :
     ∃ r, reduceByNttFriendlyModulus FK N a (N.ntt low) tail = some r ∧
       (X ^ low.length + denote low : K[X]) ∣ denote a - denote r :=
-  reduceByNttFriendlyModulus_spec root N hN a low tail hpow htail hS
+  reduceByNttFriendlyModulus_spec root N (nttConv_of_nttDft hN) a low tail hpow htail hS
 example : isPowerOfTwo ([1, 2, 3, 4] : List ℚ).length = true := by decide
 
 /-- **`fast_reduce`** — all three stages (NTT-friendly chunk-wise reduction, structured-multiple reduction, long
     division), every dividend, every non-zero modulus, every storage, every value of `FAST_REDUCE_CUTOFF_THRESHOLD` and
     of the stage-2 factor: no panic, and the result is the remainder -/
-theorem fast_reduce_spec (N : NttOps K) (hN : NttConv N) (cutoff stage2 : Nat) (a m : List K)
+theorem fast_reduce_spec (N : NttOps K) (ω : Nat → K) (hN : NttDft N ω) (cutoff stage2 : Nat) (a m : List K)
     (hm : denote m ≠ 0) :
     ∃ r, fastReduce FK N cutoff stage2 a m = some r ∧ denote r = denote a % denote m :=
-  fastReduce_spec root N hN cutoff stage2 a m hm
+  fastReduce_spec root N (nttConv_of_nttDft hN) cutoff stage2 a m hm
 example : denote ([3, 0, 1] : List ℚ) ≠ 0 := by
   intro h; have := congrArg (fun p => p.coeff 0) h; simp at this
 
 /-- **every reduction strategy returns the same remainder**: `reduce` for every dividend, every non-zero modulus,
     every storage and every value of the three thresholds -/
-theorem reduce_spec_all_arms (N : NttOps K) (hN : NttConv N) (makesSense cutoff stage2 : Nat) (a m : List K)
+theorem reduce_spec_all_arms (N : NttOps K) (ω : Nat → K) (hN : NttDft N ω) (makesSense cutoff stage2 : Nat)
+    (a m : List K)
     (hm : denote m ≠ 0) :
     ∃ r, reduce FK N makesSense cutoff stage2 a m = some r ∧ denote r = denote a % denote m :=
-  reduce_spec root N makesSense cutoff stage2 a m hm (fun _ => fastReduce_spec root N hN cutoff stage2 a m hm)
+  reduce_spec root N makesSense cutoff stage2 a m hm (fun _ => fastReduce_spec root N (nttConv_of_nttDft hN) cutoff stage2 a m hm)
 example : denote ([3, 0, 1] : List ℚ) ≠ 0 := by
   intro h; have := congrArg (fun p => p.coeff 0) h; simp at this
 
